@@ -21,7 +21,7 @@ Next == off < BS - 1 /\ off' = off + 1 /\ UNCHANGED blk
 Idx == blk * BS + off + 1
 
 \* lexicographic order of the names that can occur (strings have no order in TLA+)
-NameOrder == << "b", "f", "g", "o", "t", "u", "w", "x", "y", "z" >>
+NameOrder == << "N", "Y", "a0", "b", "f", "g", "o", "t", "u", "w", "x", "y", "z" >>
 RECURSIVE FreeVars(_)
 FreeVars(e) == (IF e.t = "Var" THEN {e.name} ELSE {})
                \cup UNION { FreeVars(Kids(e)[i]) : i \in 1..Len(Kids(e)) }
